@@ -1571,18 +1571,21 @@ def stream_docassign(ctx: Ctx, dm, results) -> None:
             reqs.append("lineno docassign %s %d %d %d %s %s" % (fmt, o["dl"], o["ln"], doc["str_lineno"], enc(doc["value"]), cons_tokens(doc)))
             impls.append(" ".join(sorted({"%s:%s" % (l, k) for l, k, _ in mine})))
             pay.append({**inp, "object": doc["name"]})
-            # direct oracle: the line inside the assigned literal
+            # direct oracle: a line of the assigned literal - far outside it is the (fixed) keeps-old-lineno defect,
+            # everything else is judged like any other docstring
             exp = expected_reports(doc, 0)
-            byname = {(c, n): (first, own) for c, n, first, own, pc in exp if c != "E"}
-            errl = {first + (1 if fmt == "r" else 0) for c, n, first, own, pc in exp if c == "E"}      # (+1: open finding rst-markup-error)
             sl = doc["str_lineno"]
+            last = sl + doc["value"].count("\n")
+            slack = expected_shift(doc) + 1          # the open findings (over-indented leading blank, rst markup error) move a line down
+            inside = []
             for line, kind, name in mine:
-                ok = line.isdigit() and ((int(line) in errl or int(line) - (1 if fmt == "r" else 0) in {f for c, n, f, o2, pc in exp if c == "E"}) if kind == "E"
-                                         else (kind, name) in byname and int(line) in byname[(kind, name)])
-                if not ok and line.isdigit() and not (sl <= int(line) <= sl + doc["value"].count("\n") + 1):
+                if line.isdigit() and not (sl <= int(line) <= last + slack):
                     ctx.fail("line:doc-assignment:keeps-old-lineno",
-                             {**inp, "object": doc["name"], "reported": int(line), "problem": [kind, name], "assigned_literal_lines": [sl, sl + doc["value"].count("\n")]},
-                             f"{FMTS[fmt]}: {kind} '{name}' written in the text assigned to {doc['name']}.__doc__ (lines {sl}-{sl + doc['value'].count(chr(10))}) is reported on line {line}")
+                             {**inp, "object": doc["name"], "reported": int(line), "problem": [kind, name], "assigned_literal_lines": [sl, last]},
+                             f"{FMTS[fmt]}: {kind} '{name}' written in the text assigned to {doc['name']}.__doc__ (lines {sl}-{last}) is reported on line {line}")
+                else:
+                    inside.append((line, kind, name))
+            oracle_er(ctx, inp, fmt, doc, exp, inside, (sl, last))
     compare(ctx, "doc-assignment", reqs, impls, pay)
 
 
